@@ -1,0 +1,5 @@
+//go:build !verif
+
+package store
+
+func verifEvent(_ string, _ ...any) {}
